@@ -962,7 +962,7 @@ def run(ctx, out):
         for (name, kind, _), a in zip(jobs, results):
             total.merge(a)
             out.stat("%s:%s" % (kind, name), a.runs)
-            if not a.complete:
+            if not a.complete and ("%s %s: sampling cut short by the time budget" % (kind, name)) not in out.notes:
                 out.notes.append("%s %s: sampling cut short by the time budget" % (kind, name))
         out.cases += total.runs
         out.validated += total.validated
